@@ -1003,3 +1003,231 @@ Proof.
   split; [exact Hd|]. split; [|apply amf0_size_enc].
   intros v' n' H'. rewrite Hd in H'. apply ok_pair_inj in H'. destruct H' as [-> _]. reflexivity.
 Qed.
+
+(* ------------------------------------------------------------------ the typed methods (used by C03) *)
+Definition typed_like (T : nat -> bytes -> res (amf * N)) : Prop :=
+  forall p, (forall f, T f p = dec (S f) p) \/ (forall f, T f p = Err E_SHORT) \/ (forall f, T f p = Err E_ILLEGAL).
+
+Lemma um_object_typed : typed_like um_object.
+Proof.
+  intros p. destruct p as [|m r]; [right; left; reflexivity|].
+  destruct (N.eqb_spec m mObject) as [->|Hne].
+  - left. intros f. symmetry. apply dec_obj.
+  - right; right. intros f. unfold um_object. apply N.eqb_neq in Hne. rewrite Hne. reflexivity.
+Qed.
+Lemma um_ecma_typed : typed_like um_ecma.
+Proof.
+  intros p. destruct p as [|m [|a [|b [|c [|d r]]]]]; try (right; left; reflexivity).
+  destruct (N.eqb_spec m mEcmaArray) as [->|Hne].
+  - left. intros f. symmetry. apply dec_ecma.
+  - right; right. intros f. unfold um_ecma. apply N.eqb_neq in Hne. rewrite Hne. reflexivity.
+Qed.
+Lemma um_strict_typed : typed_like um_strict.
+Proof.
+  intros p. destruct p as [|m [|a [|b [|c [|d r]]]]]; try (right; left; reflexivity).
+  destruct (N.eqb_spec m mStrictArray) as [->|Hne].
+  - left. intros f. symmetry. apply dec_strict.
+  - right; right. intros f. unfold um_strict. apply N.eqb_neq in Hne. rewrite Hne. reflexivity.
+Qed.
+
+Section typed.
+  Variable T : nat -> bytes -> res (amf * N).
+  Hypothesis HT : typed_like T.
+
+  Lemma typed_total f p s : T f p <> Panic s.
+  Proof. destruct (HT p) as [E|[E|E]]; rewrite E; [apply amf0_dec_total'|discriminate|discriminate]. Qed.
+
+  Lemma typed_ok f p v n : T f p = Ok (v, n) -> dec (S f) p = Ok (v, n).
+  Proof. destruct (HT p) as [E|[E|E]]; rewrite E; [auto|discriminate|discriminate]. Qed.
+
+  Lemma typed_consumed f p v n : T f p = Ok (v, n) ->
+    n = size v /\ exists w rest, p = w ++ rest /\ lenN w = n.
+  Proof. intros H. apply typed_ok in H. exact (amf0_dec_consumed _ _ _ _ H). Qed.
+
+  Lemma typed_takeN f p v n : T f p = Ok (v, n) ->
+    exists w rest, takeN n p = Some (w, rest) /\ p = w ++ rest.
+  Proof. intros H. apply typed_ok in H. exact (amf0_dec_takeN _ _ _ _ H). Qed.
+
+  Lemma typed_wf f p v n : wf_bytes p -> T f p = Ok (v, n) -> wf_amf v.
+  Proof. intros Hp H. apply typed_ok in H. exact (amf0_dec_wf _ _ _ _ Hp H). Qed.
+
+  Lemma typed_fuel f p : (length p <= f)%nat -> T f p <> Err E_FUEL.
+  Proof.
+    intros Hf. destruct (HT p) as [E|[E|E]]; rewrite E; [apply amf0_dec_fuel; lia|discriminate|discriminate].
+  Qed.
+
+  Lemma typed_fuel_mono f f' p X : T f p = X -> X <> Err E_FUEL -> (f <= f')%nat -> T f' p = X.
+  Proof.
+    intros HX Hnf Hle. destruct (HT p) as [E|[E|E]]; rewrite E in *; [|exact HX|exact HX].
+    apply (amf0_dec_fuel_mono (S f)); [exact HX|exact Hnf|lia].
+  Qed.
+End typed.
+
+Definition um_object_total := typed_total _ um_object_typed.
+Definition um_ecma_total := typed_total _ um_ecma_typed.
+Definition um_strict_total := typed_total _ um_strict_typed.
+Definition um_object_consumed := typed_consumed _ um_object_typed.
+Definition um_ecma_consumed := typed_consumed _ um_ecma_typed.
+Definition um_strict_consumed := typed_consumed _ um_strict_typed.
+Definition um_object_takeN := typed_takeN _ um_object_typed.
+Definition um_ecma_takeN := typed_takeN _ um_ecma_typed.
+Definition um_strict_takeN := typed_takeN _ um_strict_typed.
+Definition um_object_wf := typed_wf _ um_object_typed.
+Definition um_ecma_wf := typed_wf _ um_ecma_typed.
+Definition um_strict_wf := typed_wf _ um_strict_typed.
+Definition um_object_fuel := typed_fuel _ um_object_typed.
+Definition um_ecma_fuel := typed_fuel _ um_ecma_typed.
+Definition um_strict_fuel := typed_fuel _ um_strict_typed.
+Definition um_object_fuel_mono := typed_fuel_mono _ um_object_typed.
+Definition um_ecma_fuel_mono := typed_fuel_mono _ um_ecma_typed.
+Definition um_strict_fuel_mono := typed_fuel_mono _ um_strict_typed.
+
+Lemma um_object_enc ps rest fuel : wf_amf (AObj ps) -> (length (enc (AObj ps)) < fuel)%nat ->
+  um_object fuel (enc (AObj ps) ++ rest) = Ok (AObj ps, size (AObj ps)).
+Proof.
+  intros Hwf Hf. rewrite enc_obj. cbn [app]. rewrite <- dec_obj. rewrite app_comm_cons, <- enc_obj.
+  apply amf0_dec_enc; [exact Hwf|lia].
+Qed.
+Lemma um_ecma_enc c ps rest fuel : wf_amf (AEcma c ps) -> (length (enc (AEcma c ps)) < fuel)%nat ->
+  um_ecma fuel (enc (AEcma c ps) ++ rest) = Ok (AEcma c ps, size (AEcma c ps)).
+Proof.
+  intros Hwf Hf. rewrite enc_ecma. cbn [app]. rewrite <- dec_ecma. rewrite app_comm_cons, <- enc_ecma.
+  apply amf0_dec_enc; [exact Hwf|lia].
+Qed.
+Lemma um_strict_enc ps rest fuel : wf_amf (AStrict ps) -> (length (enc (AStrict ps)) < fuel)%nat ->
+  um_strict fuel (enc (AStrict ps) ++ rest) = Ok (AStrict ps, size (AStrict ps)).
+Proof.
+  intros Hwf Hf. rewrite enc_strict. cbn [app]. rewrite <- dec_strict. rewrite app_comm_cons, <- enc_strict.
+  apply amf0_dec_enc; [exact Hwf|lia].
+Qed.
+
+(* scalars *)
+Lemma um_number_enc b rest : b < 18446744073709551616 ->
+  um_number (enc (ANum b) ++ rest) = Ok (ANum b, size (ANum b)).
+Proof.
+  intros Hb. change (enc (ANum b) ++ rest) with (mNumber :: be8 b ++ rest).
+  rewrite <- (dec_num (length (enc (ANum b)))).
+  change (mNumber :: be8 b ++ rest) with (enc (ANum b) ++ rest).
+  apply amf0_dec_enc; [unfold wf_amf; cbn [wf_amfb]; lia|lia].
+Qed.
+Lemma um_bool_enc b rest : um_bool (enc (ABool b) ++ rest) = Ok (ABool b, size (ABool b)).
+Proof. destruct b; reflexivity. Qed.
+Lemma um_string_enc s rest : wf_amf (AStr s) ->
+  um_string (enc (AStr s) ++ rest) = Ok (AStr s, size (AStr s)).
+Proof.
+  intros Hwf. change (enc (AStr s) ++ rest) with (mString :: utf8_enc s ++ rest).
+  rewrite <- (dec_str (length (enc (AStr s)))).
+  change (mString :: utf8_enc s ++ rest) with (enc (AStr s) ++ rest).
+  apply amf0_dec_enc; [exact Hwf|lia].
+Qed.
+Lemma um_null_enc rest : um_null (enc ANull ++ rest) = Ok (ANull, size ANull).
+Proof. reflexivity. Qed.
+Lemma um_undef_enc rest : um_undef (enc AUndef ++ rest) = Ok (AUndef, size AUndef).
+Proof. reflexivity. Qed.
+
+Lemma scalar_consumed p v n :
+  (exists w rest, p = w ++ rest /\ wire w v /\ n = size v) ->
+  n = size v /\ exists w rest, p = w ++ rest /\ lenN w = n.
+Proof. intros (w & rest & -> & Hw & ->). split; [reflexivity|]. exists w, rest. split; [reflexivity|apply wire_len; exact Hw]. Qed.
+Lemma um_number_consumed p v n : um_number p = Ok (v, n) -> n = size v /\ exists w rest, p = w ++ rest /\ lenN w = n.
+Proof. intros H. apply scalar_consumed, um_number_ok, H. Qed.
+Lemma um_bool_consumed p v n : um_bool p = Ok (v, n) -> n = size v /\ exists w rest, p = w ++ rest /\ lenN w = n.
+Proof. intros H. apply scalar_consumed, um_bool_ok, H. Qed.
+Lemma um_string_consumed p v n : um_string p = Ok (v, n) -> n = size v /\ exists w rest, p = w ++ rest /\ lenN w = n.
+Proof. intros H. apply scalar_consumed, um_string_ok, H. Qed.
+Lemma um_null_consumed p v n : um_null p = Ok (v, n) -> n = size v /\ exists w rest, p = w ++ rest /\ lenN w = n.
+Proof. intros H. apply scalar_consumed, um_null_ok, H. Qed.
+Lemma um_undef_consumed p v n : um_undef p = Ok (v, n) -> n = size v /\ exists w rest, p = w ++ rest /\ lenN w = n.
+Proof. intros H. apply scalar_consumed, um_undef_ok, H. Qed.
+Lemma um_number_total p s : um_number p <> Panic s.
+Proof. apply um_number_plain. Qed.
+Lemma um_bool_total p s : um_bool p <> Panic s.
+Proof. apply um_bool_plain. Qed.
+Lemma um_string_total p s : um_string p <> Panic s.
+Proof. apply um_string_plain. Qed.
+Lemma um_null_total p s : um_null p <> Panic s.
+Proof. apply um_single_plain. Qed.
+Lemma um_undef_total p s : um_undef p <> Panic s.
+Proof. apply um_single_plain. Qed.
+
+(* ------------------------------------------------------------------ objectBase.Set / Get *)
+Lemma bytes_eqb_eq (a b : bytes) : bytes_eqb a b = true <-> a = b.
+Proof.
+  revert b. induction a as [|x a IH]; intros [|y b]; cbn [bytes_eqb]; split; intros H;
+    try reflexivity; try discriminate.
+  - apply andb_true_iff in H. destruct H as [H1 H2]. apply N.eqb_eq in H1. apply IH in H2. now subst.
+  - inversion H; subst. apply andb_true_iff. split; [apply N.eqb_refl|apply IH; reflexivity].
+Qed.
+
+Lemma bytes_eqb_refl (a : bytes) : bytes_eqb a a = true.
+Proof. apply bytes_eqb_eq. reflexivity. Qed.
+
+Lemma bytes_eqb_neq (a b : bytes) : a <> b -> bytes_eqb a b = false.
+Proof. intros H. destruct (bytes_eqb a b) eqn:E; [apply bytes_eqb_eq in E; contradiction|reflexivity]. Qed.
+
+Lemma has_key_in ps k : has_key ps k = true <-> In k (map fst ps).
+Proof.
+  unfold has_key. rewrite existsb_exists. split.
+  - intros ([k' v] & Hin & He). cbn [fst] in He. apply bytes_eqb_eq in He. subst.
+    apply in_map_iff. exists (k, v). split; [reflexivity|exact Hin].
+  - intros H. apply in_map_iff in H. destruct H as ([k' v] & <- & Hin).
+    exists (k', v). split; [exact Hin|apply bytes_eqb_refl].
+Qed.
+
+(* Set keeps the key list: unchanged when the key exists (value replaced in place), the key
+   appended otherwise -- so keys stay in first-set order *)
+Lemma set_prop_keys ps k v :
+  map fst (set_prop ps k v) = if has_key ps k then map fst ps else map fst ps ++ [k].
+Proof.
+  unfold set_prop. destruct (has_key ps k).
+  - rewrite map_map. apply map_ext_in. intros [k' v'] _. cbn [fst].
+    destruct (bytes_eqb k' k) eqn:E; [apply bytes_eqb_eq in E; now subst|reflexivity].
+  - rewrite map_app. reflexivity.
+Qed.
+
+Lemma set_prop_nodup ps k v : NoDup (map fst ps) -> NoDup (map fst (set_prop ps k v)).
+Proof.
+  intros H. rewrite set_prop_keys. destruct (has_key ps k) eqn:E; [exact H|].
+  assert (Hn : ~ In k (map fst ps)) by (intros Hi; apply has_key_in in Hi; congruence).
+  clear E. induction (map fst ps) as [|x l IH]; cbn [app].
+  - constructor; [intros []|constructor].
+  - inversion H; subst. constructor.
+    + rewrite in_app_iff. cbn [In]. intros [Hx|[Hx|[]]]; [contradiction|]. subst. apply Hn. now left.
+    + apply IH; [assumption|]. intros Hi. apply Hn. now right.
+Qed.
+
+Lemma get_set_same ps k v : get_prop (set_prop ps k v) k = Some v.
+Proof.
+  unfold set_prop. destruct (has_key ps k) eqn:E.
+  - induction ps as [|[k' v'] t IH]; [discriminate|]. cbn [map get_prop fst].
+    destruct (bytes_eqb k' k) eqn:Ek; cbn [get_prop fst].
+    + rewrite bytes_eqb_refl. reflexivity.
+    + rewrite Ek. apply IH. unfold has_key in *. cbn [existsb fst] in E. rewrite Ek in E. exact E.
+  - induction ps as [|[k' v'] t IH]; cbn [app get_prop].
+    + rewrite bytes_eqb_refl. reflexivity.
+    + unfold has_key in *. cbn [existsb fst] in E. apply orb_false_iff in E. destruct E as [Ek Et].
+      rewrite Ek. apply IH. exact Et.
+Qed.
+
+Lemma get_set_other ps k v k' : k' <> k -> get_prop (set_prop ps k v) k' = get_prop ps k'.
+Proof.
+  intros Hne. unfold set_prop. destruct (has_key ps k).
+  - induction ps as [|[k0 v0] t IH]; [reflexivity|]. cbn [map get_prop fst].
+    destruct (bytes_eqb k0 k) eqn:Ek; cbn [get_prop].
+    + apply bytes_eqb_eq in Ek. subst k0. rewrite (bytes_eqb_neq k k') by congruence. exact IH.
+    + destruct (bytes_eqb k0 k'); [reflexivity|exact IH].
+  - induction ps as [|[k0 v0] t IH]; cbn [app get_prop].
+    + rewrite (bytes_eqb_neq k k') by congruence. reflexivity.
+    + destruct (bytes_eqb k0 k'); [reflexivity|exact IH].
+Qed.
+
+(* a container filled through the API: keys unique, in first-set order, last value wins *)
+Definition build_props (ops : props) : props :=
+  fold_left (fun acc kv => set_prop acc (fst kv) (snd kv)) ops [].
+
+Lemma build_props_nodup ops : NoDup (map fst (build_props ops)).
+Proof.
+  unfold build_props. assert (H : NoDup (map fst (@nil (bytes * amf)))) by constructor.
+  revert H. generalize (@nil (bytes * amf)). induction ops as [|[k v] t IH]; intros acc H; [exact H|].
+  cbn [fold_left fst snd]. apply IH. apply set_prop_nodup. exact H.
+Qed.
